@@ -335,11 +335,145 @@ func init() {
 	register(&PropSpec{
 		ID:          "C17",
 		Explanation: "Decides the structural clauses of non-interference between coalesced queries: (a) per-consumer containers, (b) purity of every consumer over the shared sequences (the write-effect analysis; the sequences are shared by design), (c) one field identity for building and mapping the shared column set, (d) a consumer's error neither aborts the shared scan nor reaches another consumer, (e) a stopped consumer is removed and the scan continues exactly while someone wants more, (f) only iterations that agree on table and includeMemStore are coalesced.",
-		NotDecided:  []string{"timing of the coalescing window", "shared deadline policy (reading note: the shared scan runs under the maximum of the deadlines; a query without deadline does not extend it)"},
+		NotDecided:  []string{"timing of the coalescing window", "each consumer stopping at its own (shorter) deadline inside the shared scan is left to its own guard"},
 		Assumptions: []string{"VTA call graph over-approximates dynamic calls", "external pure-reader table follows documented contracts"},
 		Rules: []func(*Ctx){ruleC17a, func(c *Ctx) { rulePurity(c, "C17.b") }, func(c *Ctx) {
 			c.describe("C17.c", "reg: hasOutField and indexOfOutField compare fields by the same identity")
 			ruleIdentity(c, "C17.c")
-		}, ruleC17d, ruleC17e, ruleC17f},
+		}, ruleC17d, ruleC17e, ruleC17f, ruleC17g},
 	})
+}
+
+// ruleC17g: the deadline of the shared scan bounds no consumer from below.
+func ruleC17g(c *Ctx) {
+	const rule = "C17.g"
+	c.describe(rule, "flow/pathstate(bool): the context of the shared scan derives from context.Background(), never from one consumer's context; a deadline is imposed only under a flag that is cleared whenever some consumer has no deadline; the imposed deadline is the maximum (selected under deadline.After(current)) of the consumers' deadlines")
+	dp := c.need(rule, "(*z.DB).doProcessIterations")
+	if dp == nil {
+		return
+	}
+	scans := callsTo(dp, "(*z.rowStore).iterate")
+	c.floor(rule, "shared scan call", len(scans), 1)
+	for _, sc := range scans {
+		ctxArg := sc.Common().Args[1]
+		okRoot := valueOnlyFrom(ctxArg, func(v ssa.Value) bool {
+			v = root(v)
+			if call, ok := v.(*ssa.Call); ok && isCall(call, "context.Background") {
+				return true
+			}
+			if ex, ok := v.(*ssa.Extract); ok && ex.Index == 0 {
+				if call, ok := ex.Tuple.(*ssa.Call); ok && isCall(call, "context.WithDeadline", "context.WithTimeout") {
+					return valueOnlyFrom(call.Call.Args[0], func(p ssa.Value) bool {
+						pc, ok := root(p).(*ssa.Call)
+						return ok && isCall(pc, "context.Background")
+					})
+				}
+			}
+			return false
+		})
+		c.check(rule, "shared scan context is not a consumer's context", sc.Pos(), okRoot, "derived from context.Background() (optionally with the batch deadline)", "the shared scan runs under a context derived from one consumer's context: that consumer's deadline/cancellation cuts off the other coalesced queries")
+	}
+	wds := callsTo(dp, "context.WithDeadline")
+	if len(wds) == 0 {
+		c.ok(rule, "no deadline imposed on the shared scan", dp.Pos(), "no context.WithDeadline call: consumers guard their own deadlines")
+		return
+	}
+	for _, wd := range wds {
+		// g3: guarded by a boolean phi that is cleared on the no-deadline side
+		cleared := false
+		for _, g := range guardsOf(wd.Block()) {
+			p, ok := g.v.(*ssa.Phi)
+			if !ok || !g.pos {
+				continue
+			}
+			// search the phi web for a const-false edge coming from the hasDeadline==false side
+			seen := map[*ssa.Phi]bool{}
+			var walk func(p *ssa.Phi)
+			walk = func(p *ssa.Phi) {
+				if seen[p] {
+					return
+				}
+				seen[p] = true
+				for i, e := range p.Edges {
+					if q, ok := e.(*ssa.Phi); ok {
+						walk(q)
+						continue
+					}
+					if b, isC := constBool(e); isC && !b {
+						from := p.Block().Preds[i]
+						// is 'from' reached only via hasDeadline == false ?
+						for _, gg := range guardsOf(from) {
+							if ex, ok := gg.v.(*ssa.Extract); ok && ex.Index == 1 && !gg.pos {
+								if call, ok := ex.Tuple.(*ssa.Call); ok && calleeName(call) == "invoke (context.Context).Deadline" {
+									cleared = true
+								}
+							}
+						}
+						// or the edge itself is the false edge of the hasDeadline test
+						if i2 := ifOf(from); i2 != nil {
+							v, pol := unNot(i2.Cond, true)
+							if ex, ok := v.(*ssa.Extract); ok && ex.Index == 1 {
+								if call, ok := ex.Tuple.(*ssa.Call); ok && calleeName(call) == "invoke (context.Context).Deadline" {
+									fs := from.Succs[1]
+									if !pol {
+										fs = from.Succs[0]
+									}
+									if fs == p.Block() {
+										cleared = true
+									}
+								}
+							}
+						}
+					}
+				}
+			}
+			walk(p)
+		}
+		c.check(rule, "batch deadline only when every consumer has one", wd.Pos(), cleared, "WithDeadline is guarded by a flag cleared when a consumer's ctx has no deadline", "a deadline is imposed on the shared scan although some coalesced consumer may have none: that query fails with 'deadline exceeded' only because of its neighbours")
+		// g2: the deadline is a maximum
+		okMax := false
+		if p, ok := root(wd.Common().Args[1]).(*ssa.Phi); ok {
+			okMax = true
+			seen := map[*ssa.Phi]bool{}
+			var walk func(p *ssa.Phi)
+			walk = func(p *ssa.Phi) {
+				if seen[p] {
+					return
+				}
+				seen[p] = true
+				for i, e := range p.Edges {
+					if q, ok := e.(*ssa.Phi); ok {
+						walk(q)
+						continue
+					}
+					if _, isConst := e.(*ssa.Const); isConst {
+						continue
+					}
+					ex, isEx := e.(*ssa.Extract)
+					if !isEx || ex.Index != 0 {
+						okMax = false
+						continue
+					}
+					// incoming deadline must arrive under deadline.After(current)==true
+					from := p.Block().Preds[i]
+					found := false
+					for _, g := range guardsOf(from) {
+						if call, ok := g.v.(*ssa.Call); ok && g.pos && isCall(call, "(time.Time).After") && call.Call.Args[0] == ssa.Value(ex) {
+							found = true
+						}
+					}
+					if i2 := ifOf(from); i2 != nil && !found {
+						if call, ok := i2.Cond.(*ssa.Call); ok && isCall(call, "(time.Time).After") && call.Call.Args[0] == ssa.Value(ex) && from.Succs[0] == p.Block() {
+							found = true
+						}
+					}
+					if !found {
+						okMax = false
+					}
+				}
+			}
+			walk(p)
+		}
+		c.check(rule, "batch deadline is the maximum of the consumers' deadlines", wd.Pos(), okMax, "a consumer's deadline replaces the current one only under deadline.After(current)", "the deadline imposed on the shared scan is not the maximum of the consumers' deadlines: a query with a later deadline is cut off at an earlier one")
+	}
 }
